@@ -200,7 +200,7 @@ func ruleVD8(c *Ctx) {
 					_, nme, ok := fieldLoad(a.X)
 					return ok && nme == "IsEpic"
 				})
-				c.check(len(notEpic) > 0 && mustPassEdges(f, em.Call.Block(), notEpic), fn, em.construct("epic")+"|not-an-epic", pos,
+				c.check(len(notEpic) > 0 && mustPassEdgesForall(f, em.Call.Block(), notEpic), fn, em.construct("epic")+"|not-an-epic", pos,
 					"an epic assignment is recorded only for an item tested not to be an epic", "an epic can be filed under another epic: the emission is not confined to the !isEpic(item) edge (the nested epic never leaves todo, so the outer epic is never complete and tasks waiting on it are never ready)")
 			}
 			// local guard?
